@@ -19,7 +19,7 @@ Theorem expand_abstract t c : forall sl,
   /\ snd (expand t c sl) = snd (exec (abstract c))
   /\ snd (fst (expand t c sl)) = sl.
 Proof.
-  induction c as [p|p| | |a IHa b IHb|body IH|body IH|body IH|o s]; intros sl F;
+  induction c as [p|p| | |a IHa b IHb|body IH|body IH|body IH|body IH| | |o s]; intros sl F;
     cbn [object_free expand abstract exec] in *.
   - repeat split.
   - repeat split.
@@ -47,6 +47,13 @@ Proof.
   - destruct (IH sl F) as (A1 & A2 & A3).
     destruct (expand t body sl) as [[eb sb] rb]. destruct (exec (abstract body)) as [pb xb].
     cbn [fst snd] in *. subst sb. repeat split. exact A1.
+  - destruct (IH sl F) as (A1 & A2 & A3).
+    destruct (expand t body sl) as [[eb sb] rb]. destruct (exec (abstract body)) as [pb xb].
+    cbn [fst snd] in *. subst xb sb.
+    cbn [prims_of]. rewrite prims_of_app, A1. cbn [prims_of on_thread map].
+    unfold on_thread. rewrite map_app. cbn [map]. repeat split.
+  - repeat split.
+  - repeat split.
   - discriminate.
 Qed.
 
